@@ -8,6 +8,8 @@ Local Open Scope N_scope.
 (* Part 1: pipeline                                                                       *)
 (* ===================================================================================== *)
 
+Arguments heads : simpl never.
+
 Lemma heads_app a b : heads (a ++ b) = heads a ++ heads b.
 Proof. unfold heads. apply flat_map_app. Qed.
 
@@ -191,11 +193,25 @@ Proof.
   unfold Inv, conn0; cbn. repeat split; try constructor; try discriminate.
 Qed.
 
+(* only inBuf / nrequests / bodyPipe bookkeeping changed *)
+Lemma inv_congr c c' :
+  Inv c -> c_pipe c' = c_pipe c -> c_open c' = c_open c -> c_writing c' = c_writing c -> c_out c' = c_out c ->
+  c_done c' = c_done c -> c_crashed c' = c_crashed c -> c_readmore c' = c_readmore c ->
+  c_seen c' = c_done c' ++ map st_req (c_pipe c') ++ heads (c_inbuf c') -> Inv c'.
+Proof.
+  intros (Icr & Isi & Itl & Itd & Ifr & Icl & Iseen & Ikl & Iko & Irm) Hp Ho Hw Hout Hd Hc Hr Hs.
+  unfold Inv, front_ok, closed_ok, done_bytes in *. rewrite Hs, Hp, Ho, Hw, Hout, Hd, Hc, Hr.
+  repeat (split; [assumption|]). split; [reflexivity|]. repeat (split; [assumption|]). assumption.
+Qed.
+
 (* ---------- on_read ---------- *)
 Lemma on_read_inv pf items c : Inv c -> Inv (on_read pf items c).
 Proof.
   intros H. unfold on_read.
-  destruct (c_open c) eqn:Eo; cbn [negb].
+  assert (Iseen : c_seen c = c_done c ++ map st_req (c_pipe c) ++ heads (c_inbuf c)) by apply H.
+  destruct (negb (c_open c)).
+  - eapply inv_congr; [exact H|reflexivity..|].
+    cbn [c_seen c_done c_pipe c_inbuf]. rewrite heads_app, Iseen, <- !app_assoc. reflexivity.
   - destruct (if c_bodyneed c =? 0 then (0, c_inbuf c ++ items) else feed_body (c_bodyneed c) (c_inbuf c ++ items))
       as [need inb'] eqn:Ef.
     apply parse_inv.
@@ -203,23 +219,19 @@ Proof.
     { destruct (c_bodyneed c =? 0).
       - inversion Ef; reflexivity.
       - pose proof (feed_body_heads (c_bodyneed c) (c_inbuf c ++ items)) as X. rewrite Ef in X. exact X. }
-    destruct H as (Icr & Isi & Itl & Itd & Ifr & Icl & Iseen & Ikl & Iko & Irm).
-    unfold Inv; cbn. repeat split; try assumption.
-    + intros _. specialize (Ifr Eo). unfold front_ok, done_bytes in *. cbn. assumption.
-    + intros X. rewrite Eo in X. discriminate.
-    + rewrite Hh, heads_app, Iseen, <- !app_assoc. reflexivity.
-  - destruct H as (Icr & Isi & Itl & Itd & Ifr & Icl & Iseen & Ikl & Iko & Irm).
-    unfold Inv; cbn. rewrite Eo. repeat split; try assumption.
-    + intros X; discriminate.
-    + intros _. specialize (Icl Eo). unfold closed_ok, done_bytes in *. cbn. assumption.
-    + rewrite heads_app, Iseen, <- !app_assoc. reflexivity.
-    + intros X; discriminate.
+    eapply inv_congr; [exact H|reflexivity..|].
+    cbn [c_seen c_done c_pipe c_inbuf]. rewrite Hh, heads_app, Iseen, <- !app_assoc. reflexivity.
 Qed.
+
+Ltac projs := cbn [c_inbuf c_pipe c_nreq c_bodyneed c_readmore c_open c_writing c_out c_done c_seen c_crashed
+                      st_req st_todo st_taken st_deferred st_waiting st_outsz tl set_pipe set_crashed].
+Ltac projs_in H := cbn [c_inbuf c_pipe c_nreq c_bodyneed c_readmore c_open c_writing c_out c_done c_seen c_crashed
+                      st_req st_todo st_taken st_deferred st_waiting st_outsz tl set_pipe set_crashed] in H.
 
 (* ---------- on_data ---------- *)
 Lemma on_data_inv i c : Inv c -> Inv (on_data i c).
 Proof.
-  intros H. unfold on_data.
+  intros H. pose proof H as H0. unfold on_data.
   destruct (c_open c) eqn:Eo; cbn [negb]; [|assumption].
   destruct (c_pipe c) as [|f tl0] eqn:Ep; [assumption|].
   destruct H as (Icr & Isi & Itl & Itd & Ifr & Icl & Iseen & Ikl & Iko & Irm).
@@ -227,31 +239,24 @@ Proof.
   specialize (Ifr Eo). unfold front_ok in Ifr. rewrite Ep in Ifr.
   destruct (rq_id (st_req f) =? i).
   - (* the front stream delivers *)
-    destruct (st_waiting f) eqn:Ew; [|unfold Inv; rewrite Ep, Eo; repeat split; try assumption;
-                                       [intros _; unfold front_ok; rewrite Ep; assumption | intros X; discriminate]].
-    destruct (st_todo f) as [|ch more] eqn:Et;
-      [unfold Inv; rewrite Ep, Eo; repeat split; try assumption;
-       [intros _; unfold front_ok; rewrite Ep; assumption | intros X; discriminate]|].
-    destruct Ifr as [(_ & Hwr & Hout) | (Hw & _)]; [|rewrite Ew in Hw; discriminate].
-    unfold start_write, set_pipe. cbn [c_writing]. rewrite Hwr.
+    destruct (st_waiting f) eqn:Ew; [|assumption].
+    destruct (st_todo f) as [|ch more] eqn:Et; [assumption|].
+    destruct Ifr as [(_ & Hwr & Hout) | (Hw & _)]; [|discriminate].
+    unfold start_write. projs. rewrite Hwr.
     inversion Isi as [|? ? Hsf Hsr]; subst. inversion Itd as [|? ? Htf Htr]; subst.
-    unfold Inv; cbn. rewrite Eo. repeat split; try assumption.
-    + constructor; [|assumption]. unfold si in *; cbn. rewrite Hsf, Et, <- app_assoc. reflexivity.
-    + constructor; [|assumption]. intros X; cbn in X; discriminate.
-    + intros _. unfold front_ok; cbn. right. split; [reflexivity|].
-      exists (st_taken f), ch. repeat split. exact Hout.
-    + intros X; discriminate.
+    unfold Inv, front_ok, closed_ok, done_bytes. projs. rewrite Eo.
+    split; [assumption|]. split.
+    { constructor; [|assumption]. unfold si in *; projs. rewrite Hsf, Et, <- app_assoc. reflexivity. }
+    split; [assumption|]. split.
+    { constructor; [|assumption]. intros X; projs_in X; discriminate. }
+    split.
+    { intros _. right. split; [reflexivity|]. exists (st_taken f), ch. repeat split. exact Hout. }
+    split; [intros X; discriminate|]. split; [exact Iseen|]. repeat split; auto.
   - (* a stream behind the front delivers: deferRecipientForLater *)
-    destruct (pick i tl0) as [[[b s] a]|] eqn:Epk;
-      [|unfold Inv; rewrite Ep, Eo; repeat split; try assumption;
-        [intros _; unfold front_ok; rewrite Ep; assumption | intros X; discriminate]].
+    destruct (pick i tl0) as [[[b s] a]|] eqn:Epk; [|assumption].
     destruct (pick_spec _ _ _ _ _ Epk) as [-> _].
-    destruct (st_waiting s) eqn:Ew;
-      [|unfold Inv; rewrite Ep, Eo; repeat split; try assumption;
-        [intros _; unfold front_ok; rewrite Ep; assumption | intros X; discriminate]].
-    destruct (st_todo s) as [|ch more] eqn:Et;
-      [unfold Inv; rewrite Ep, Eo; repeat split; try assumption;
-       [intros _; unfold front_ok; rewrite Ep; assumption | intros X; discriminate]|].
+    destruct (st_waiting s) eqn:Ew; [|assumption].
+    destruct (st_todo s) as [|ch more] eqn:Et; [assumption|].
     apply Forall_app in Itl. destruct Itl as [Itb Its]. inversion Its as [|? ? Hnf Hna]; subst.
     destruct Hnf as [Hsz [(Htk & Hdf & _) | (ch' & _ & _ & Hw')]]; [|rewrite Ew in Hw'; discriminate].
     rewrite Hdf.
@@ -259,16 +264,20 @@ Proof.
     inversion Hss as [|? ? Hs1 Hsa]; subst.
     inversion Itd as [|? ? Htf Htr]; subst. apply Forall_app in Htr. destruct Htr as [Htb Hts].
     inversion Hts as [|? ? Ht1 Hta]; subst.
-    unfold set_pipe, Inv; cbn. rewrite Eo. repeat split; try assumption.
-    + constructor; [assumption|]. apply Forall_app. split; [assumption|]. constructor; [|assumption].
-      unfold si in *; cbn. rewrite Hs1, Et, <- app_assoc. reflexivity.
-    + apply Forall_app. split; [assumption|]. constructor; [|assumption].
-      split; [exact Hsz|]. right. exists ch. cbn. rewrite Htk. repeat split.
-    + constructor; [assumption|]. apply Forall_app. split; [assumption|]. constructor; [|assumption].
-      intros X; cbn in X; discriminate.
-    + intros _. unfold front_ok; cbn. exact Ifr.
-    + intros X; discriminate.
-    + rewrite Iseen. rewrite !map_app. cbn [map st_req]. reflexivity.
+    unfold Inv, front_ok, closed_ok, done_bytes. projs. rewrite Eo.
+    split; [assumption|]. split.
+    { constructor; [assumption|]. apply Forall_app. split; [assumption|]. constructor; [|assumption].
+      unfold si in *; projs. rewrite Hs1, Et, <- app_assoc. reflexivity. }
+    split.
+    { apply Forall_app. split; [assumption|]. constructor; [|assumption].
+      split; [exact Hsz|]. right. exists ch. projs. rewrite Htk. repeat split. }
+    split.
+    { constructor; [assumption|]. apply Forall_app. split; [assumption|]. constructor; [|assumption].
+      intros X; projs_in X; discriminate. }
+    split; [intros _; exact Ifr|].
+    split; [intros X; discriminate|]. split.
+    { rewrite Iseen. cbn [map]. rewrite !map_app. cbn [map]. projs. reflexivity. }
+    repeat split; auto.
 Qed.
 
 (* ---------- kick ---------- *)
@@ -291,12 +300,12 @@ Lemma kick_inv pf c : popped_ok c -> Inv (kick pf c).
 Proof.
   intros (Icr & Isi & Inf & Itd & Hwr & Hout & Hcl & Iseen & Ikl & Iko & Irm).
   unfold kick. destruct (c_open c) eqn:Eo; cbn [negb].
-  2:{ unfold Inv. rewrite Eo. repeat split; try assumption.
-      - apply Forall_tl; assumption.
-      - intros X; discriminate.
-      - intros _. destruct (Hcl eq_refl) as (d & r & Hd & Hk). exists d, r. split; assumption.
-      - intros X; discriminate. }
-  (* first an intermediate state that satisfies Inv except that the front may hold a deferred element *)
+  2:{ unfold Inv, front_ok, closed_ok. rewrite Eo.
+      split; [assumption|]. split; [assumption|]. split; [apply Forall_tl; assumption|]. split; [assumption|].
+      split; [intros X; discriminate|]. split.
+      { intros _. destruct (Hcl eq_refl) as (d & r & Hd & Hk). split; [assumption|]. split; [assumption|].
+        exists d, r. split; assumption. }
+      split; [assumption|]. split; [assumption|]. split; [intros X; discriminate| assumption]. }
   destruct (parse_spec (parse_fuel c) pf c) as [rs X].
   destruct X as (Hp & Hh & Ho & Hw & Hout' & Hd & Hs & Hc & Hr).
   set (c1 := parse_requests (parse_fuel c) pf c) in *.
@@ -311,27 +320,36 @@ Proof.
     destruct Hin as (r & <- & _). apply new_stream_todo. }
   assert (Hseen1 : c_seen c1 = c_done c1 ++ map st_req (c_pipe c1) ++ heads (c_inbuf c1)).
   { rewrite Hs, Hd, Hp, Iseen, Hh, map_app, map_map. cbn [st_req new_stream]. rewrite map_id, <- !app_assoc. reflexivity. }
+  assert (Hout1 : c_out c1 = concat (map resp_bytes (c_done c1))).
+  { rewrite Hout', Hd. exact Hout. }
+  assert (Hkl1 : Forall (fun r => rq_keep r = true) (removelast (c_done c1))) by (rewrite Hd; assumption).
+  assert (Hko1 : Forall (fun r => rq_keep r = true) (c_done c1)) by (rewrite Hd; apply Iko; reflexivity).
+  assert (Hcr1 : c_crashed c1 = false) by (rewrite Hc; assumption).
+  assert (Hrm1 : c_readmore c1 = true) by (rewrite Hr; assumption).
+  assert (Ho1 : c_open c1 = true) by (rewrite Ho; assumption).
+  assert (Hw1 : c_writing c1 = None) by (rewrite Hw; assumption).
+  clearbody c1. clear Hp Hh Ho Hw Hout' Hd Hs Hc Hr.
   destruct (c_pipe c1) as [|f p] eqn:Ep1.
-  - unfold Inv. rewrite Ep1, Ho, Eo, Hc, Hd, Hr. repeat split; try assumption; try constructor.
-    + intros _. unfold front_ok. rewrite Ep1, Hw, Hout', Hwr. unfold done_bytes. rewrite Hd. split; [reflexivity| exact Hout].
-    + intros X; discriminate.
-    + rewrite Hd in Hseen1. exact Hseen1.
-    + intros _. apply Iko. reflexivity.
+  - unfold Inv, front_ok, closed_ok, done_bytes. rewrite Ep1, Ho1.
+    split; [assumption|]. split; [constructor|]. split; [constructor|]. split; [constructor|].
+    split; [intros _; split; assumption|]. split; [intros X; discriminate|].
+    split; [assumption|]. split; [assumption|]. split; [intros _; assumption| assumption].
   - inversion Hnf1 as [|? ? Hnf Hnp]; subst.
     destruct Hnf as [Hsz [(Htk & Hdf & Hwt) | (ch & Htk & Hdf & Hwt)]].
-    + rewrite Hdf. unfold Inv. rewrite Ep1, Ho, Eo, Hc, Hd, Hr. repeat split; try assumption.
-      * intros _. unfold front_ok. rewrite Ep1, Hw, Hout', Hwr. left. rewrite Htk. cbn. rewrite app_nil_r.
-        unfold done_bytes. rewrite Hd. repeat split; assumption.
-      * intros X; discriminate.
-      * rewrite Hd in Hseen1. exact Hseen1.
-      * intros _. apply Iko. reflexivity.
-    + rewrite Hdf, Hsz. cbn [N.eqb]. unfold start_write. rewrite Hw, Hwr.
-      unfold Inv; cbn. rewrite Ep1, Ho, Eo, Hc, Hd, Hr. repeat split; try assumption.
-      * intros _. unfold front_ok; cbn. rewrite Ep1. right. split; [assumption|]. exists [], ch. cbn.
-        rewrite app_nil_r. repeat split; [assumption|]. rewrite Hout'. unfold done_bytes; cbn. rewrite Hd. exact Hout.
-      * intros X; discriminate.
-      * rewrite Hd in Hseen1. exact Hseen1.
-      * intros _. apply Iko. reflexivity.
+    + rewrite Hdf. unfold Inv, front_ok, closed_ok, done_bytes. rewrite Ep1, Ho1. cbn [tl].
+      split; [assumption|]. split; [assumption|]. split; [assumption|]. split; [assumption|].
+      split.
+      { intros _. left. rewrite Htk. cbn [concat]. rewrite app_nil_r. repeat split; assumption. }
+      split; [intros X; discriminate|].
+      split; [assumption|]. split; [assumption|]. split; [intros _; assumption| assumption].
+    + rewrite Hdf, Hsz. cbn [N.eqb]. unfold start_write. rewrite Hw1.
+      unfold Inv, front_ok, closed_ok, done_bytes. projs. rewrite Ep1, Ho1. cbn [tl].
+      split; [assumption|]. split; [assumption|]. split; [assumption|]. split; [assumption|].
+      split.
+      { intros _. right. split; [assumption|]. exists [], ch. cbn [app concat]. rewrite app_nil_r.
+        repeat split; assumption. }
+      split; [intros X; discriminate|].
+      split; [assumption|]. split; [assumption|]. split; [intros _; assumption| assumption].
 Qed.
 
 Lemma removelast_snoc {A} (l : list A) x : removelast (l ++ [x]) = l.
@@ -340,34 +358,40 @@ Proof. apply removelast_last. Qed.
 (* ---------- on_wrote ---------- *)
 Lemma on_wrote_inv pf c : Inv c -> Inv (on_wrote pf c).
 Proof.
-  intros H. unfold on_wrote.
+  intros H. pose proof H as H0. unfold on_wrote.
   destruct (c_open c) eqn:Eo; cbn [negb]; [|assumption].
   destruct (c_writing c) as [ch|] eqn:Ewr; [|assumption].
   destruct H as (Icr & Isi & Itl & Itd & Ifr & Icl & Iseen & Ikl & Iko & Irm).
   specialize (Ifr Eo). unfold front_ok in Ifr.
   destruct (c_pipe c) as [|f tl0] eqn:Ep.
-  { destruct Ifr as [X _]. rewrite Ewr in X. discriminate. }
+  { destruct Ifr as [X _]. discriminate. }
   cbn [tl] in Itl.
-  destruct Ifr as [(_ & X & _) | (Hw & t' & ch' & Htk & Hwr & Hout)]; [rewrite Ewr in X; discriminate|].
-  rewrite Ewr in Hwr. inversion Hwr; subst ch'. clear Hwr.
+  destruct Ifr as [(_ & X & _) | (Hw & t' & ch' & Htk & Hwr & Hout)]; [discriminate|].
+  inversion Hwr; subst ch'. clear Hwr.
   inversion Isi as [|? ? Hsf Hsr]; subst. inversion Itd as [|? ? Htf Htr]; subst.
   destruct (st_todo f) as [|c2 more] eqn:Et.
   - (* STREAM_COMPLETE *)
-    apply kick_inv. unfold popped_ok; cbn. repeat split; try assumption.
-    + unfold done_bytes; cbn. rewrite map_app, concat_app. cbn. rewrite app_nil_r.
-      unfold resp_bytes at 2. unfold si in Hsf. rewrite Hsf, Et, app_nil_r, Htk, concat_app. cbn. rewrite app_nil_r.
-      rewrite Hout, <- app_assoc. reflexivity.
-    + intros Hk. exists (c_done c), (st_req f). split; [reflexivity| exact Hk].
-    + rewrite Iseen. cbn [map]. rewrite <- !app_assoc. reflexivity.
-    + rewrite removelast_snoc. apply Iko. reflexivity.
-    + intros Hk. apply Forall_app. split; [apply Iko; reflexivity|]. constructor; [exact Hk| constructor].
+    apply kick_inv. unfold popped_ok, done_bytes; projs.
+    split; [assumption|]. split; [assumption|]. split; [assumption|]. split; [assumption|].
+    split; [reflexivity|]. split.
+    { rewrite map_app, concat_app. cbn [map concat]. rewrite app_nil_r.
+      unfold resp_bytes at 2. unfold si in Hsf. rewrite Hsf, Et, app_nil_r, Htk, concat_app. cbn [concat]. rewrite app_nil_r.
+      unfold done_bytes in Hout. rewrite Hout, <- app_assoc. reflexivity. }
+    split; [intros Hk; exists (c_done c), (st_req f); split; [reflexivity| exact Hk]|].
+    split; [rewrite Iseen; cbn [map]; rewrite <- !app_assoc; reflexivity|].
+    split; [rewrite removelast_snoc; apply Iko; exact Eo|].
+    split; [|assumption].
+    intros Hk. apply Forall_app. split; [apply Iko; exact Eo|]. constructor; [exact Hk| constructor].
   - (* STREAM_NONE: pullData *)
-    unfold Inv; cbn. rewrite Eo. repeat split; try assumption.
-    + constructor; [|assumption]. unfold si in *; cbn. rewrite Hsf, Et. reflexivity.
-    + constructor; [|assumption]. intros _ _; cbn. rewrite Et. discriminate.
-    + intros _. unfold front_ok; cbn. left. repeat split. rewrite Hout, Htk, concat_app. cbn.
-      rewrite app_nil_r, <- app_assoc. reflexivity.
-    + intros X; discriminate.
+    unfold Inv, front_ok, closed_ok, done_bytes; projs. rewrite Eo.
+    split; [assumption|]. split.
+    { constructor; [|assumption]. unfold si in *; projs. rewrite Hsf, Et. reflexivity. }
+    split; [assumption|]. split.
+    { constructor; [|assumption]. intros _ _; projs. discriminate. }
+    split.
+    { intros _. left. repeat split. unfold done_bytes in Hout. rewrite Hout, Htk, concat_app. cbn [concat].
+      rewrite app_nil_r, <- app_assoc. reflexivity. }
+    split; [intros X; discriminate|]. split; [exact Iseen|]. repeat split; auto.
 Qed.
 
 Lemma pstep_inv pf e c : Inv c -> Inv (pstep pf e c).
